@@ -14,28 +14,29 @@ PROPS = {
                     "on the real loop-free function; loop-free symbolic execution over fully symbolic inputs is unbounded",
         trusted_base=[],
     ),
-    "C01": dict(bounded=dict(module="water_monitors.py", args=["--property", "C01"]), functions=["pre_irrigation", "drainage", "infiltration", "capillary_rise", "groundwater_inflow", "soil_evaporation"], level="proof",
+    "C01": dict(bounded=dict(module="water_monitors.py", args=["--property", "C01"]), functions=["pre_irrigation", "drainage", "infiltration", "capillary_rise", "groundwater_inflow", "soil_evaporation", "transpiration", "solution_single_time_step"], level="proof",
                 explanation="per-process mass contracts: loop invariants over the spec sum wsum (storage), closed with the lemma library", trusted_base=[]),
-    "C02": dict(bounded=dict(module="water_monitors.py", args=["--property", "C02"]), functions=["rainfall_partition", "infiltration"], level="proof",
+    "C02": dict(bounded=dict(module="water_monitors.py", args=["--property", "C02"]), functions=["rainfall_partition", "infiltration", "solution_single_time_step"], level="proof",
                 explanation="partition identities and runoff bounds as postconditions of rainfall_partition and infiltration", trusted_base=[]),
-    "C03": dict(bounded=dict(module="water_monitors.py", args=["--property", "C03"]), functions=["pre_irrigation", "drainage", "infiltration", "capillary_rise", "groundwater_inflow", "root_zone_water", "soil_evaporation", "evap_layer_water_content"], level="proof",
+    "C03": dict(bounded=dict(module="water_monitors.py", args=["--property", "C03"]), functions=["pre_irrigation", "drainage", "infiltration", "capillary_rise", "groundwater_inflow", "root_zone_water", "soil_evaporation", "evap_layer_water_content", "transpiration", "rainfall_partition", "solution_single_time_step"], level="proof",
                 explanation="water_inv as inductive invariant of each process", trusted_base=[]),
-    "C04": dict(bounded=dict(module="water_monitors.py", args=["--property", "C04"]), functions=["drainage", "irrigation", "infiltration", "capillary_rise", "groundwater_inflow", "pre_irrigation", "aeration_stress", "soil_evaporation"], level="proof",
+    "C04": dict(bounded=dict(module="water_monitors.py", args=["--property", "C04"]), functions=["drainage", "irrigation", "infiltration", "capillary_rise", "groundwater_inflow", "pre_irrigation", "aeration_stress", "soil_evaporation", "transpiration", "canopy_cover", "root_zone_water", "solution_single_time_step"], level="proof",
                 explanation="sign / ordering postconditions", trusted_base=[]),
-    "C13": dict(bounded=dict(module="water_monitors.py", args=["--property", "C13"]), functions=["irrigation", "root_zone_water", "pre_irrigation"], level="proof",
+    "C13": dict(bounded=dict(module="water_monitors.py", args=["--property", "C13"]), functions=["irrigation", "root_zone_water", "pre_irrigation", "growth_stage", "transpiration", "solution_single_time_step"], level="proof",
                 explanation="per-strategy postconditions of irrigation(), callee contract of root_zone_water", trusted_base=[]),
-    "C19": dict(bounded=dict(module="water_monitors.py", args=["--property", "C19"]), functions=["check_groundwater_table", "capillary_rise", "groundwater_inflow"], level="proof",
+    "C19": dict(bounded=dict(module="water_monitors.py", args=["--property", "C19"]), functions=["check_groundwater_table", "capillary_rise", "groundwater_inflow", "solution_single_time_step"], level="proof",
                 explanation="adjusted field capacity range / far table / saturation below the table / no table => zero fluxes", trusted_base=[]),
-    "C05": dict(functions=["growing_degree_day", "cc_development"], level="proof", safety=True,
+    "C05": dict(functions=["growing_degree_day", "cc_development", "biomass_accumulation", "HIref_current_day", "HIadj_pre_anthesis", "HIadj_pollination", "HIadj_post_anthesis", "harvest_index", "canopy_cover", "germination", "transpiration", "solution_single_time_step"], level="proof", safety=True,
                 bounded=dict(module="water_monitors.py", args=["--property", "C05"]),
                 explanation="E1: degree-day range and canopy-curve range clauses; the canopy/root/harvest-index envelopes are served by the BOUNDED monitors only so far"),
-    "C06": dict(functions=[], level="other", bounded=dict(module="water_monitors.py", args=["--property", "C06"]),
-                explanation="BOUNDED: yield algebra and summary rows monitored on real runs"),
-    "C12": dict(functions=["pre_irrigation", "drainage", "infiltration", "capillary_rise", "groundwater_inflow", "root_zone_water", "soil_evaporation",
-                           "evap_layer_water_content", "rainfall_partition", "irrigation", "check_groundwater_table"], level="proof", frame=True,
+    "C06": dict(functions=["biomass_accumulation", "HIref_current_day", "transpiration", "canopy_cover", "solution_single_time_step"], level="proof",
+                bounded=dict(module="water_monitors.py", args=["--property", "C06"]),
+                explanation="per-step yield algebra and seasonal irrigation accumulation as postconditions of the daily step over the callee contracts; "
+                            "summary rows (one per harvested season, in order) monitored by the BOUNDED stand-in only so far"),
+    "C12": dict(functions=["pre_irrigation", "drainage", "infiltration", "capillary_rise", "groundwater_inflow", "root_zone_water", "soil_evaporation", "evap_layer_water_content", "rainfall_partition", "irrigation", "check_groundwater_table", "transpiration", "harvest_index", "canopy_cover", "germination", "growth_stage", "solution_single_time_step"], level="proof", frame=True,
                 explanation="assigns (frame) obligations: every store of a process function hits a fresh array or a location its contract's assigns clause names; "
                             "parameter arrays (soil profile, weather, management) are not writable"),
-    "C07": dict(functions=[], level="other", bounded=dict(module="c07_schedule.py"),
+    "C07": dict(functions=["germination", "HIref_current_day", "solution_single_time_step"], level="other", bounded=dict(module="c07_schedule.py"),
                 explanation="BOUNDED: schedule produced by the pandas initialisers and whole-run calendar facts checked on an enumerated lattice of windows / planting dates / crops"),
     "C16": dict(functions=[], level="other", bounded=dict(module="c16_completion.py"),
                 explanation="BOUNDED: pairwise-covering enumeration of the configuration catalogue"),
